@@ -25,7 +25,7 @@ CONSTANTS Shapes,    \* set of <<H,W>> explored by the bounded machine
           Origins,   \* set of mask origins <<oy2, ox2>> in half pixels
           Mult,      \* set of baseline multipliers
           MaxB,      \* baseline sequences of length 1..MaxB
-          MaskMode,  \* "all" | "ends" | "few": which masks of the shapes with more than 4 cells
+          MaskMode,  \* "all" | "ends" | "few" | "two": which masks of the shapes with more than 3 cells
           Rich       \* BOOLEAN: larger input families per transformer
 
 -----------------------------------------------------------------------------
@@ -43,8 +43,11 @@ GNeg(a) == << -a[1], -a[2] >>
 
 RECURSIVE GPowNat(_, _)
 GPowNat(a, n) == IF n = 0 THEN GOne ELSE GMul(a, GPowNat(a, n - 1))
-\* exp(-2 pi i n / 4) = (-i)^n for any integer n (period 4; % is the non-negative remainder)
-Phase(n) == GPowNat(MinusI, n % 4)
+\* exp(-2 pi i n / 4) = (-i)^n for any integer n: cosine and sine of n quarter turns clockwise
+\* (period 4; % is the non-negative remainder).  PhaseIsPowerOfMinusI below ties the table to the powers.
+CosQ(n) == CASE n % 4 = 0 -> 1 [] n % 4 = 2 -> -1 [] OTHER -> 0    \* cos(-2 pi n/4)
+SinQ(n) == CASE n % 4 = 1 -> -1 [] n % 4 = 3 -> 1 [] OTHER -> 0    \* sin(-2 pi n/4)
+Phase(n) == << CosQ(n), SinQ(n) >>
 
 ISum(s0) == LET s == TLCEval(s0)
                f[k \in 0 .. Len(s)] == IF k = 0 THEN 0 ELSE f[k - 1] + s[k] IN f[Len(s)]
@@ -105,8 +108,6 @@ Curvature(T, Wt) ==
 (* (pixel, baseline), real and imaginary accumulators, and a mapping-matrix *)
 (* transform that visits only the entries passing a sparsity test.          *)
 
-CosQ(n) == CASE n % 4 = 0 -> 1 [] n % 4 = 2 -> -1 [] OTHER -> 0    \* cos(-2 pi n/4)
-SinQ(n) == CASE n % 4 = 1 -> -1 [] n % 4 = 3 -> 1 [] OTHER -> 0    \* sin(-2 pi n/4)
 PreRe(C, B) == TLCEval([p \in 1 .. Len(C) |-> [k \in 1 .. Len(B) |-> CosQ(N(C[p], B[k]))]])
 PreIm(C, B) == TLCEval([p \in 1 .. Len(C) |-> [k \in 1 .. Len(B) |-> SinQ(N(C[p], B[k]))]])
 
@@ -145,9 +146,10 @@ MaskFamily(H, W) ==
         first == << 0, 0 >>
         last == << H - 1, W - 1 >>
         mid == CellOf((H * W) \div 2, W)
-    IN IF MaskMode = "all" \/ H * W <= 4 THEN (SUBSET all) \ {{}}
+    IN IF MaskMode = "all" \/ H * W <= 3 THEN (SUBSET all) \ {{}}
        ELSE IF MaskMode = "ends"
             THEN {u \in SUBSET all : Cardinality(u) \in {1, 2, H * W - 1, H * W}}
+            ELSE IF MaskMode = "two" THEN {all \ {first}, {mid, last}}
             ELSE {all, all \ {first}, all \ {mid}, {first}, {last}, {first, last}, {mid, last}}
 
 BaselineSeqs == UNION {[1 .. n -> Mult \X Mult] : n \in 1 .. MaxB}
@@ -156,10 +158,11 @@ BaselineSeqs == UNION {[1 .. n -> Mult \X Mult] : n \in 1 .. MaxB}
 Ramp(P) == [p \in 1 .. P |-> ((2 * p) % 5) - 2]
 Unit(P, q, c) == TLCEval([p \in 1 .. P |-> IF p = q THEN c ELSE 0])
 Images(P) ==
-    IF P <= 2 THEN [1 .. P -> -2 .. 2]
+    IF P = 1 \/ (Rich /\ P = 2) THEN [1 .. P -> -2 .. 2]
     ELSE {Unit(P, q, IF q % 2 = 0 THEN -2 ELSE 1) : q \in 1 .. P}
          \cup (IF Rich THEN {Unit(P, q, IF q % 2 = 0 THEN 1 ELSE -2) : q \in 1 .. P} ELSE {})
-         \cup {[p \in 1 .. P |-> -1], [p \in 1 .. P |-> 2], Ramp(P), [p \in 1 .. P |-> IF p % 2 = 0 THEN -1 ELSE 2]}
+         \cup (IF Rich THEN {[p \in 1 .. P |-> -1], [p \in 1 .. P |-> 2]} ELSE {})
+         \cup {Ramp(P), [p \in 1 .. P |-> IF p % 2 = 0 THEN -1 ELSE 2]}
 VisFamily(K) ==
     {[k \in 1 .. K |-> IF k = q THEN g ELSE GZero] : q \in 1 .. K, g \in {<< 1, 0 >>, << 0, 1 >>}}
     \cup {[k \in 1 .. K |-> << 1, -2 >>], [k \in 1 .. K |-> IF k % 2 = 1 THEN << -1, 1 >> ELSE << 2, 0 >>]}
@@ -167,9 +170,8 @@ Mat(cols) == [p \in 1 .. Len(cols[1]) |-> [j \in 1 .. Len(cols) |-> cols[j][p]]]
 Cols(P) == {Unit(P, 1, 1), Unit(P, P, -2), [p \in 1 .. P |-> 1], Ramp(P)}
 MatFamily(P) ==
     IF Rich THEN {Mat(<< c >>) : c \in Cols(P)} \cup {Mat(<< c, d >>) : c \in Cols(P), d \in Cols(P)}
-    ELSE {Mat(<< Unit(P, 1, 1) >>), Mat(<< Ramp(P) >>), Mat(<< [p \in 1 .. P |-> 1], Unit(P, 1, 1) >>),
-          Mat(<< Ramp(P), Unit(P, P, -2) >>), Mat(<< Unit(P, P, -2), [p \in 1 .. P |-> 1] >>),
-          Mat(<< [p \in 1 .. P |-> 1], Ramp(P) >>)}
+    ELSE {Mat(<< Ramp(P) >>), Mat(<< [p \in 1 .. P |-> 1], Unit(P, 1, 1) >>),
+          Mat(<< Ramp(P), Unit(P, P, -2) >>), Mat(<< Unit(P, P, -2), [p \in 1 .. P |-> 1] >>)}
 NormalMats(P) == {Mat(<< [p \in 1 .. P |-> 1], Unit(P, 1, 1) >>), Mat(<< Ramp(P), Unit(P, P, -2) >>)}
 NormalVis(K) == {[k \in 1 .. K |-> << 1, -2 >>], [k \in 1 .. K |-> IF k % 2 = 1 THEN << -1, 1 >> ELSE << 2, 0 >>]}
 NoiseFamily(K) == {[k \in 1 .. K |-> << 0, 0 >>], [k \in 1 .. K |-> << (k % 3) - 1, ((k + 1) % 3) - 1 >>]}
@@ -224,15 +226,25 @@ Matrix == /\ phase = "built"
           /\ phase' = "tmm"
           /\ UNCHANGED << shape, U, org, B >>
 
+\* the non-Rich family keeps three of the eight (matrix, visibilities, noise) combinations
+NormalPick(m, v, se) ==
+    LET neg == HasNegative(m)
+        flat == \A k \in DOMAIN se : se[k] = << 0, 0 >>
+        const == \A k \in DOMAIN v : v[k] = << 1, -2 >>
+    IN (~ neg /\ const /\ ~ flat) \/ (neg /\ ~ const /\ ~ flat) \/ (neg /\ const /\ flat)
+NormalStep(m, v, se, t, wt) ==
+    /\ inp' = [m |-> m, v |-> v, se |-> se]
+    /\ obs' = [d |-> DataVector(t, v, wt), f |-> Curvature(t, wt)]
+    /\ Dump("inv", [m |-> m, v |-> v, se |-> se, emax |-> EMax])
+
 Normal == /\ phase = "built"
           /\ LET c == CC
              IN \E m \in NormalMats(PP) :
                   LET t == TransformMatrix(m, c, B)
                   IN \E v \in NormalVis(KK) : \E se \in NoiseFamily(KK) :
                        LET wt == Weights(se, EMax)
-                       IN /\ inp' = [m |-> m, v |-> v, se |-> se]
-                          /\ obs' = [d |-> DataVector(t, v, wt), f |-> Curvature(t, wt)]
-                          /\ Dump("inv", [m |-> m, v |-> v, se |-> se, emax |-> EMax])
+                       IN /\ (Rich \/ NormalPick(m, v, se)) = TRUE   \* "= TRUE": a plain Boolean, not an action disjunction
+                          /\ NormalStep(m, v, se, t, wt)
           /\ phase' = "inv"
           /\ UNCHANGED << shape, U, org, B >>
 
@@ -244,6 +256,15 @@ Spec == Init /\ [][Next]_vars
 
 \* every explored transformer is on the lattice, so the integer model is the whole truth about it
 InstancesOnLattice == OnLattice(CC, B)
+
+\* the phase table is the character n |-> (-i)^n of the integers: Phase(0) = 1, Phase(1) = -i, Phase(a+b) = Phase(a) Phase(b),
+\* Phase(-a) = conj(Phase(a)), and it agrees with repeated multiplication
+PhaseIsPowerOfMinusI ==
+    phase = "built" =>
+        /\ Phase(0) = GOne /\ Phase(1) = MinusI
+        /\ \A a \in -9 .. 9 : /\ Phase(-a) = GConj(Phase(a))
+                              /\ (a >= 0 => Phase(a) = GPowNat(MinusI, a))
+                              /\ \A b \in -9 .. 9 : Phase(a + b) = GMul(Phase(a), Phase(b))
 
 \* the cosine/sine tables are the real and imaginary parts of (-i)^n
 TablesArePhases ==
